@@ -617,9 +617,6 @@ r_expand(const Expansion &expansion, const vector_string &args,
             subst += ", " + args[i];
           }
         }
-        if (node._stringify) {
-          subst = stringify(subst);
-        }
       }
       else if (i == _variadic_param && node._paste) {
         // Special case GCC behavior: if __VA_ARGS__ is pasted to a comma and
@@ -628,6 +625,11 @@ r_expand(const Expansion &expansion, const vector_string &args,
         if (!result.empty() && *result.rbegin() == ',') {
           result.resize(result.size() - 1);
         }
+      }
+
+      if (node._stringify) {
+        // An argument that was not given is an empty argument: #x is "".
+        subst = stringify(subst);
       }
 
       if (node._expand) {
